@@ -13,6 +13,7 @@ package functions (inlined, depth-limited).  Anything else raises AnalysisError:
 that cannot be extracted is analysis-broken (exit 2), never a silent pass.
 Unknown truth values fork: a row may have several outcomes."""
 import ast
+import copy
 from .core import AnalysisError, Unfoldable
 
 
@@ -102,6 +103,40 @@ class Closure:
 
 
 _SELF = object()        # the receiver itself, where a function is interpreted over "self.<field>" entries of its environment
+
+
+class OneShot(list):
+    """What a generator expression evaluates to: its elements, readable once.  Iterating it (a loop, a comprehension, a
+    consuming builtin) empties it, so a second consumer sees nothing - as with the real object."""
+    def drain(self):
+        items = list(self)
+        del self[:]
+        return items
+
+    def __deepcopy__(self, memo):
+        return OneShot(copy.deepcopy(list(self), memo))
+
+
+class OneShotT(tuple):
+    """What calling a generator function evaluates to: the values it yields (computed eagerly), readable once by the
+    interpreted program.  The driver of a table sees a plain tuple."""
+    def __new__(cls, items):
+        o = super().__new__(cls, items)
+        o.used = False
+        return o
+
+    def drain(self):
+        if self.used:
+            return ()
+        self.used = True
+        return tuple(self)
+
+    def __deepcopy__(self, memo):
+        return OneShotT(copy.deepcopy(tuple(self), memo))
+
+
+def _drained(v):
+    return v.drain() if isinstance(v, (OneShot, OneShotT)) else v
 
 
 class AbsFile:
@@ -265,13 +300,13 @@ class Evaluator:
             self.block(func.node.body, env, func, depth)
         except Returned as r:
             ys = self._yields.pop()
-            return tuple(ys) if func.is_generator else r.value
+            return OneShotT(ys) if func.is_generator else r.value
         finally:
             # state of the receiver object written by the callee is visible to the caller (and to the driver)
             if selfenv is not None:
                 selfenv.update({k: v for k, v in env.items() if k.startswith("self.")})
         ys = self._yields.pop()
-        return tuple(ys) if func.is_generator else None
+        return OneShotT(ys) if func.is_generator else None
 
     # -------------------------------------------------------------- statements
     def block(self, stmts, env, f, depth):
@@ -325,7 +360,7 @@ class Evaluator:
                         continue
                 raise AnalysisError("statement Delete not supported by the table extractor (%s)" % f.loc(st))
         elif isinstance(st, ast.For):
-            it = self.expr(st.iter, env, f, depth)
+            it = _drained(self.expr(st.iter, env, f, depth))
             if isinstance(it, AbsFile):
                 it = self._file_lines(it, f.loc(st))
             if isinstance(it, str):
@@ -592,7 +627,7 @@ class Evaluator:
                     return acc
             return acc
         if isinstance(e, ast.YieldFrom):
-            v = self.expr(e.value, env, f, depth)
+            v = _drained(self.expr(e.value, env, f, depth))
             if isinstance(v, (list, tuple)):
                 self._yields[-1].extend(v)
                 return None
@@ -617,7 +652,7 @@ class Evaluator:
                         out.append(self.expr(e.elt, sub, f, depth))
                     return
                 gen = e.generators[i]
-                it = self.expr(gen.iter, sub, f, depth)
+                it = _drained(self.expr(gen.iter, sub, f, depth))
                 if isinstance(it, AbsFile):
                     it = self._file_lines(it, f.loc(e))
                 if isinstance(it, str):
@@ -641,7 +676,7 @@ class Evaluator:
                     raise AnalysisError("set comprehension over unhashable abstract values (%s)" % f.loc(e))
             if isinstance(e, ast.DictComp):
                 return dict(out)
-            return out
+            return OneShot(out) if isinstance(e, ast.GeneratorExp) else out
         raise AnalysisError("expression %s not supported by the table extractor (%s)" % (type(e).__name__, f.loc(e)))
 
     def compare(self, op, a, b, site):
@@ -725,6 +760,10 @@ class Evaluator:
             return a % b
         if isinstance(op, ast.FloorDiv) and type(a) is int and type(b) is int and b != 0:
             return a // b
+        if isinstance(op, ast.Div) and type(a) in (int, float) and type(b) in (int, float):
+            if b == 0:
+                raise Raised("ZeroDivisionError")
+            return a / b
         if isinstance(op, ast.Mult) and isinstance(a, str) and type(b) is int or isinstance(b, str) and type(a) is int:
             return a * b
         if isinstance(op, ast.Mod) and isinstance(a, str) and (isinstance(b, (str, int, float)) or isinstance(b, tuple)
@@ -758,6 +797,11 @@ class Evaluator:
                 kws.update(kv_)
             else:
                 kws[k.arg] = kv_
+        if any(isinstance(a, (OneShot, OneShotT)) for a in args):
+            cs0 = self.ctx.r.site_of.get(id(e))
+            pkg = cs0 is not None and cs0.targets and cs0.kind in ("func", "self", "static", "typed", "super", "slot", "ctor", "ctor_noinit", "local")
+            if not pkg and not (isinstance(fn, ast.Name) and isinstance(env.get(fn.id), (tuple, Closure))):
+                args = [_drained(a) for a in args]          # list(g), sorted(g), ", ".join(g), x.extend(g): the consumer uses it up
         if isinstance(fn, ast.Call) and isinstance(fn.func, ast.Name) and fn.func.id == "getattr" and len(fn.args) == 2 \
                 and isinstance(fn.args[0], ast.Name) and fn.args[0].id == "self" and "self" not in env and f.cls is not None:
             nm_ = self.expr(fn.args[1], env, f, depth)
@@ -809,6 +853,10 @@ class Evaluator:
                 return any(vals) if fn.id == "any" else all(vals)
             if fn.id == "range" and args and all(isinstance(a, int) for a in args):
                 return list(range(*args))
+            if fn.id == "zip" and args and not kws and all(isinstance(a, (list, tuple, str)) for a in args):
+                return [tuple(t) for t in zip(*args)]
+            if fn.id == "enumerate" and len(args) == 1 and isinstance(args[0], str):
+                return [(i, x) for i, x in enumerate(args[0])]
             if fn.id == "enumerate" and len(args) == 1 and isinstance(args[0], (list, tuple)):
                 return [(i, x) for i, x in enumerate(args[0])]
             if fn.id == "open" and args and self.ctx.p.resolve_name(f.module, "open") is None:
@@ -837,6 +885,10 @@ class Evaluator:
                 raise Raised("StopIteration")
             if fn.id == "str" and args:
                 a = args[0]
+                if isinstance(a, AbsObj):
+                    m_ = a.cls.find_method("__str__") or a.cls.find_method("__repr__")
+                    if m_ is not None:
+                        return self.call(m_, {}, None, depth + 1, selfobj=a)        # str(obj) is the object's own __str__
                 return str(a) if isinstance(a, (int, float, str)) else Cat([a])
             if fn.id == "type" and args:
                 a = args[0]
@@ -865,6 +917,19 @@ class Evaluator:
             if fn.id in ("int", "str", "float"):
                 return {"int": int, "str": str, "float": float}[fn.id] if not args else Opaque(fn.id)
             if fn.id == "isinstance":
+                if len(args) == 2:
+                    _is_cls = lambda k: isinstance(k, tuple) and len(k) == 2 and k[0] == "class"
+                    kinds = [args[1]] if _is_cls(args[1]) or not isinstance(args[1], (tuple, list)) else list(args[1])
+                    v0 = args[0]
+                    cname = v0.cls if isinstance(v0, AbsObj) else (self.ctx.p.find_class(v0[1]) if isinstance(v0, tuple) and len(v0) == 4
+                                                                     and v0[0] == "new" and isinstance(v0[1], str) else None)
+                    if cname is not None and all(isinstance(k, tuple) and len(k) == 2 and k[0] == "class" for k in kinds):
+                        return any(k[1] in cname.mro() for k in kinds)          # an object of an interpreted class against package classes
+                    if cname is not None and all(isinstance(k, type) for k in kinds):
+                        return False
+                    if type(v0) in (str, int, float, bool, list, dict, tuple, set) and not (isinstance(v0, tuple) and v0 and v0[0] in ("new", "class", "func", "bound"))  \
+                            and all(isinstance(k, type) or (isinstance(k, tuple) and len(k) == 2 and k[0] == "class") for k in kinds):
+                        return any(isinstance(k, type) and isinstance(v0, k) for k in kinds)
                 return self.decide(e)
         if isinstance(fn, ast.Attribute):
             recv_name = fn.value.id if isinstance(fn.value, ast.Name) else ast.unparse(fn.value)
